@@ -406,3 +406,42 @@ def r10_arity(ctx, modules=None, rule='R10'):
                           'call to %s does not bind: %s (this path raises TypeError whenever it is taken)'
                           % (fi.qualname, err))
     return n
+
+
+def r8_selector_not_truth_tested(ctx, rule='R8t'):
+    """0 and [] are meaningful selectors (first resource / no resource): the selector value must never be used as a truth value."""
+    run = ctx.run
+    run.rule(rule, 'SELECTOR-NOT-TRUTH-TESTED: the `resources` selector of a step is never used in a truth-value position (if / and / or '
+                   '/ not / conditional expression); only `is None` comparisons may decide on it, because the integer 0 and the empty '
+                   'list are valid selectors that differ from None')
+    n = 0
+    sites = matcher_sites(ctx.repo, ctx.res)
+    selectors = set()
+    for c in sites:
+        if c.args:
+            p = pseudo(c.args[0])
+            if p:
+                selectors.add((ctx.repo.module_of(c).name, p))
+    for modname, sel in sorted(selectors):
+        m = ctx.repo.module(modname)
+        for node in ast.walk(m.tree):
+            tests = []
+            if isinstance(node, (ast.If, ast.While, ast.IfExp)):
+                tests.append(node.test)
+            elif isinstance(node, ast.Assert):
+                tests.append(node.test)
+            elif isinstance(node, ast.BoolOp):
+                tests.extend(node.values)
+            elif isinstance(node, ast.UnaryOp) and isinstance(node.op, ast.Not):
+                tests.append(node.operand)
+            elif isinstance(node, ast.comprehension):
+                tests.extend(node.ifs)
+            for t in tests:
+                if pseudo(t) == sel:
+                    n += 1
+                    run.fail(rule, where(ctx.repo, t), fq(ctx.repo, t), 'truth test of selector %s' % sel,
+                             'the selector %s is used as a truth value: resources=0 and resources=[] are then treated like None '
+                             '(all resources) instead of "first resource" / "no resource"' % sel)
+    if n == 0:
+        run.ok(rule, 'dataflows', 'selectors %s' % sorted(s_ for _, s_ in selectors), 'no truth test in %d modules' % len(selectors))
+    return n
